@@ -9,6 +9,13 @@
   * the inner loop tests `branch.IsStruct()` on the OUTER branch (always a reference there), so
     inner struct branches are named `Struct` and collapse as well;
   * only one level is flattened per pass (the referred object is read as it was before the pass).
+
+  NOT modelled (tree model): the branches copied out of the referred object's union keep sharing
+  their kind pointers (`*ArrayType`, `*MapType`, …) with that object.  A LATER pass of the same chain
+  that assigns visited children in place below union branches (only InlineObjectsWithTypes, PHP chain)
+  then changes both objects at once.  `sharesMutable` tells when a run of this pass creates such
+  sharing on a branch that has children and mentions a reference; the chain driver reports those
+  inputs as `shared` instead of claiming an output for them (see Chain.lean, checks/c06.py).
 -/
 import Cog.Passes.Visitor
 namespace Cog.Passes.FlattenDisjunctions
@@ -48,5 +55,25 @@ def hook (cur : Schemas) (s : Schema) : DisjHook := fun bs info m =>
   | .panic p => .panic p
 
 def run (ss : Schemas) : Outcome Schemas := runDisjPass hook ss
+
+/-- a branch with children (its kind pointer is what stays shared) that mentions a reference -/
+def mutableInner (b : Ty) : Bool :=
+  (b.isArray || b.isMap || b.isStruct || b.isDisj || (match b with | .inter .. => true | _ => false)) && !(Ty.refs b).isEmpty
+
+def probeBranches (s : Schema) (fuel : Nat) : List Ty → Bool
+  | [] => false
+  | b :: bs =>
+    (b.isRef && (match Schema.resolve s fuel b with
+      | .ok (some (.disj rbs _ _)) => rbs.any mutableInner
+      | _ => false)) || probeBranches s fuel bs
+
+/-- does this run of the pass copy, into some visited union, a branch of another object's union that
+    has children and mentions a reference? -/
+def sharesMutable (ss : Schemas) : Bool :=
+  let probe : Schemas → Schema → DisjHook := fun cur s bs info m =>
+    if probeBranches s (Schemas.fuel cur) bs then .err "shared" else .ok (.disj bs info m)
+  match runDisjPass probe ss with
+  | .err "shared" => true
+  | _ => false
 
 end Cog.Passes.FlattenDisjunctions
